@@ -118,7 +118,7 @@ impl<M: MemBuilder> AnyVecRaw<M> {
     /// will panic, if out of capacity.
     #[inline]
     pub fn reserve(&mut self, additional: usize) {
-        let new_len = self.len + additional;
+        let new_len = self.len.checked_add(additional).expect("capacity overflow");
         if self.capacity() < new_len{
             self.mem.expand(new_len - self.capacity());
         }
@@ -128,7 +128,7 @@ impl<M: MemBuilder> AnyVecRaw<M> {
     pub fn reserve_exact(&mut self, additional: usize)
         where M::Mem: MemResizable
     {
-        let new_len = self.len + additional;
+        let new_len = self.len.checked_add(additional).expect("capacity overflow");
         if self.capacity() < new_len{
             self.mem.expand_exact(new_len - self.capacity());
         }
